@@ -1,99 +1,71 @@
 (* Props/C04.v — Sequencer node recovers from a crash at any point of block production.
    Statements only; every proof is [exact <lemma of Proofs/ProducerProofs.v>].
-   Model: Model/Producer.v.  A history is any list over
+   Model: Model/Producer.v, of the tree AFTER the repairs 46e0134 (state written before the store height),
+   d2502c2 (cache files written atomically), a489023 (an empty batch older than the last block is skipped).
+   A history is any list over
      IRun (ABoot ic) | IRun (AStep seq exec)            an action runs to completion
      ICrash (ABoot ic) k | ICrash (AStep seq exec) k    the process dies after k atomic datastore writes of it
-     IStop torn                                          shutdown; torn = dies while a cache file is partly written
-   so crashes before the first / after the last write, crashes that recur during recovery (any nesting
-   depth) and crashes of the recovery boot itself are ordinary list elements.  [run c h] is the state
-   after [h] from an empty datastore.  Decidable guards on the history:
-     f5_hit c h — some crash cut a production step strictly inside its commit group (store height
-                  written, state not yet written);
-     f1_hit c h — an EMPTY batch older than the last block was taken (C01's finding);
-     f6_hit c h — a shutdown died while a cache file was partly written. *)
+     IStop None | IStop (Some j)                        shutdown; Some j = dies after j of the 8 cache files were renamed
+     ITamper f                                          NOT a crash: a cache file truncated by hand
+   so crashes before the first / after the last write, between ANY two writes (k is unrestricted), crashes
+   that recur during recovery (any nesting depth), crashes of the recovery boot itself and crashes in the
+   middle of writing the caches at shutdown are ordinary list elements.  [run c h] is the state after [h]
+   from an empty datastore.  All theorems: ALL well-formed configurations, ALL histories, NO guard. *)
 From Coq Require Import String NArith ZArith List Bool.
 From Verif Require Import Base.KV Base.Keys Model.Types Model.Producer Proofs.ProducerProofs.
 Import ListNotations.
 Open Scope N_scope.
 
-(* (i),(iii),(iv) PARTIAL, guard f5_hit = false.  After every such history — all crash points of all
-   boots and steps, nested to any depth, empty and non-empty batches, any prior chain — the durable
-   image is consistent: either nothing is committed (height < initial, no state) or heights
-   initial..height hold a valid hash-linked signed [chain] (C01's predicate: no height skipped or
-   repeated) and the recorded state is exactly the state after the block at the recorded height.
-   Missing for the full property: histories with a crash between the height write and the state write. *)
-Theorem C04_consistent_partial : forall (c : cfg) (h : list item),
-  wf_cfg c -> f5_hit c h = false -> ChainValid c (run c h).
-Proof. exact chain_valid_guarded. Qed.
-Print Assumptions C04_consistent_partial.
+(* (i),(iii),(iv) FULL.  After EVERY history the durable image is consistent ([ChainDurable]): nothing is
+   committed, or heights initial..n hold a valid hash-linked signed [chain] (C01's predicate; none skipped
+   or repeated), the recorded state is exactly the state after block n, and the recorded height is n — or
+   n-1 in the image a process left behind when it died between the state write and the height write.
+   And whenever a process runs, i.e. after every successful (re)start and after every step of it,
+   recorded height, recorded state and stored blocks agree exactly ([ChainValid]). *)
+Theorem C04_consistent_full : forall (c : cfg) (h : list item),
+  wf_cfg c ->
+  ChainDurable c (run c h) /\ (forall v, vol_of (run c h) = Some v -> ChainValid c (run c h)).
+Proof. exact consistent_all. Qed.
+Print Assumptions C04_consistent_full.
 
-Theorem C04_blocks_valid_partial : forall (c : cfg) (h : list item),
-  wf_cfg c -> f5_hit c h = false ->
+(* the same, height by height (see [block_facts]), for every state in which a process runs *)
+Theorem C04_blocks_valid_full : forall (c : cfg) (h : list item),
+  wf_cfg c -> forall v, vol_of (run c h) = Some v ->
   let st := run c h in let m := img_of st in
   forall k, c_initial c <= k -> k <= g_height m ->
   exists r0 s, In r0 (g_inits st) /\ g_state m = Some s /\ s_height s = g_height m /\
                block_facts c (g_block m) (g_built st) (g_execs st) r0 (g_height m) s k.
-Proof. exact blocks_valid_guarded. Qed.
-Print Assumptions C04_blocks_valid_partial.
+Proof. exact blocks_valid_running. Qed.
+Print Assumptions C04_blocks_valid_full.
 
-(* (ii) PARTIAL, guard f5_hit = false.  Whatever happens later (h2: more steps, crashes, restarts), a
-   height that was committed (<= recorded height) keeps exactly its block, and the recorded height never
-   decreases.  A block is published (broadcast) only by a step that returns OCommitted, i.e. after its
-   height and state are written, so "published" is covered by "committed". *)
-Theorem C04_committed_stable_partial : forall (c : cfg) (h1 h2 : list item),
-  wf_cfg c -> f5_hit c (h1 ++ h2) = false ->
+(* (ii) FULL.  Whatever happens later (h2: more steps, crashes anywhere, restarts, shutdowns), a height that
+   was committed (<= recorded height) keeps exactly its block, and the recorded height never decreases.  A
+   block is published (broadcast) only by a step that returns OCommitted, i.e. after its state and height
+   are written, so "published" is covered by "committed". *)
+Theorem C04_committed_stable_full : forall (c : cfg) (h1 h2 : list item),
+  wf_cfg c ->
   let st1 := run c h1 in let st2 := run c (h1 ++ h2) in
   g_height (img_of st1) <= g_height (img_of st2) /\
   forall k, k <= g_height (img_of st1) -> g_block (img_of st2) k = g_block (img_of st1) k.
 Proof. exact committed_stable. Qed.
-Print Assumptions C04_committed_stable_partial.
+Print Assumptions C04_committed_stable_full.
 
-(* (v) PARTIAL, guards f5_hit, f1_hit, f6_hit = false.  After every such history a restart with a
-   working execution layer succeeds, and from the recovered state a well-formed pair of responses
-   commits the next block at once. *)
-Theorem C04_restart_partial : forall (c : cfg) (h : list item) (r0 : root),
-  wf_cfg c -> f5_hit c h = false -> f1_hit c h = false -> f6_hit c h = false ->
+(* (v) FULL.  After every history of boots, steps, crashes and shutdowns ([untampered]: no cache file damaged
+   BY HAND, which no crash of the repaired code can do) a restart with a working execution layer succeeds,
+   height, state and blocks agree, and a well-formed pair of responses commits the next block at once. *)
+Theorem C04_restart_full : forall (c : cfg) (h : list item) (r0 : root),
+  wf_cfg c -> untampered h = true ->
   let st' := fst (exec_item c (run c h) (IRun (ABoot (Some r0)))) in
-  exists v, vol_of st' = Some v /\
+  exists v, vol_of st' = Some v /\ ChainValid c st' /\
     forall sq e, wf_resp c st' sq e = true ->
       a_out (step c (img_of st') v sq e) = OCommitted (g_height (img_of st') + 1).
-Proof. exact restart_guarded. Qed.
-Print Assumptions C04_restart_partial.
-
-(* REFUTED (DESIGN section 4 F5).  Without the guard the consistency statement is false of the model:
-   the process dies between the height write and the state write of the second block; after the
-   restart height = 2 but the recorded state is that of height 1, the next block is built on the stale
-   state, fails validation and is re-used for ever ([wedged]: nothing ever commits or changes again). *)
-Theorem C04_consistent_refuted :
-  ~ (forall c h, wf_cfg c -> ChainValid c (run c h))
-  /\ exists c h, wf_cfg c /\ f1_hit c h = false /\ f6_hit c h = false /\ ~ ChainValid c (run c h) /\ wedged c (run c h).
-Proof. exact recovery_refuted. Qed.
-Print Assumptions C04_consistent_refuted.
-
-(* REFUTED (F5, first block).  Without the guard a committed block can be replaced: the first block is
-   committed, the process dies before the state write, the restart finds no state, calls InitChain
-   again and re-creates the genesis block over the committed one. *)
-Theorem C04_committed_stable_refuted :
-  ~ (forall c h1 h2, wf_cfg c ->
-       forall k, k <= g_height (img_of (run c h1)) -> g_block (img_of (run c (h1 ++ h2))) k = g_block (img_of (run c h1)) k).
-Proof. exact stable_refuted. Qed.
-Print Assumptions C04_committed_stable_refuted.
-
-(* REFUTED (F6).  Without the f6 guard "a restart succeeds" is false of the model: after a shutdown that
-   dies while a cache file is partly written, every later start fails in LoadCache, with any InitChain
-   outcome, and changes nothing — although the durable chain itself is valid. *)
-Theorem C04_restart_refuted :
-  ~ (forall c h r0, wf_cfg c -> f5_hit c h = false -> f1_hit c h = false ->
-       exists v, vol_of (fst (exec_item c (run c h) (IRun (ABoot (Some r0))))) = Some v)
-  /\ exists c h, wf_cfg c /\ f5_hit c h = false /\ f1_hit c h = false /\ ChainValid c (run c h) /\
-       forall ic, let st' := fst (exec_item c (run c h) (IRun (ABoot ic))) in
-         vol_of st' = None /\ files_ok st' = false /\ img_of st' = img_of (run c h).
-Proof. exact restart_refuted. Qed.
-Print Assumptions C04_restart_refuted.
+Proof. exact restart_all. Qed.
+Print Assumptions C04_restart_full.
 
 (* ---- non-vacuity: nesting depth 2 on a 3-block chain: a step dies after its early save (2 writes), the
-   recovery boot itself dies, the second recovery succeeds and re-uses the early-saved block; later a step
-   dies after ALL its writes (k = 5), a clean shutdown, a restart, one more block ------------------- *)
+   recovery boot itself dies, the second recovery succeeds and re-uses the early-saved block; a step dies
+   between the state write and the height write (k = 4) and the restart raises the height; a step dies
+   after ALL its writes (k = 5); a shutdown cut after 3 cache files, a restart, one more block --------- *)
 Definition ex_cfg : cfg := {| c_chain := 3; c_initial := 2; c_gtime := 100%Z; c_key := 7; c_gaddr := Addr 7 |}.
 Definition ex_history : list item :=
   [ IRun (ABoot (Some 1)); IRun (AStep SNil (EOk 2));
@@ -102,26 +74,67 @@ Definition ex_history : list item :=
     ICrash (ABoot (Some 5)) 0;
     IRun (ABoot (Some 6));
     IRun (AStep (SBatch [13] 400%Z 3) (EOk 7));
-    ICrash (AStep (SBatch [] 400%Z 4) (EOk 8)) 5;
+    ICrash (AStep (SBatch [] 400%Z 4) (EOk 8)) 4;
     IRun (ABoot None);
-    IStop false;
+    ICrash (AStep (SBatch [15] 450%Z 6) (EOk 10)) 5;
+    IRun (ABoot None);
+    IStop (Some 3);
     IRun (ABoot None);
     IRun (AStep (SBatch [14] 500%Z 5) (EOk 9)) ].
 
-Example ex_hypotheses :
-  wf_cfg ex_cfg /\ f5_hit ex_cfg ex_history = false /\ f1_hit ex_cfg ex_history = false /\ f6_hit ex_cfg ex_history = false.
-Proof. split; [split; [vm_compute; discriminate|reflexivity]|]. vm_compute. repeat split. Qed.
+Example ex_hypotheses : wf_cfg ex_cfg /\ untampered ex_history = true.
+Proof. split; [split; [vm_compute; discriminate|reflexivity]|reflexivity]. Qed.
 
 Example ex_outcomes :
   map o_res (outputs ex_cfg ex_history) =
-  [ OBootOk; OCommitted 2; OCommitted 3; OCrashed; OCrashed; OBootOk; OCommitted 4; OCrashed; OBootOk; OStopped; OBootOk; OCommitted 6 ]
-  /\ g_height (img_of (run ex_cfg ex_history)) = 6
+  [ OBootOk; OCommitted 2; OCommitted 3; OCrashed; OCrashed; OBootOk; OCommitted 4; OCrashed; OBootOk; OCrashed; OBootOk;
+    OStopped; OBootOk; OCommitted 7 ]
+  /\ g_height (img_of (run ex_cfg ex_history)) = 7
   /\ option_map (fun b => d_txs (b_data b)) (g_block (img_of (run ex_cfg ex_history)) 4) = Some [11; 12]
-  /\ option_map (fun b => d_txs (b_data b)) (g_block (img_of (run ex_cfg ex_history)) 5) = Some [].
+  /\ option_map (fun b => d_txs (b_data b)) (g_block (img_of (run ex_cfg ex_history)) 5) = Some []
+  (* the image the process left behind when it died between the state write and the height write *)
+  /\ g_height (img_of (run ex_cfg (firstn 8 ex_history))) = 4
+  /\ option_map s_height (g_state (img_of (run ex_cfg (firstn 8 ex_history)))) = Some 5
+  (* the restart raises the height *)
+  /\ g_height (img_of (run ex_cfg (firstn 9 ex_history))) = 5.
 Proof. vm_compute. repeat split. Qed.
 
-(* the witnesses are reachable histories that hit exactly their guard *)
-Example ex_witness_guards :
-  f5_hit wcfg f5_history = true /\ f5_hit wcfg (f5b_h1 ++ f5b_h2) = true /\ f6_hit wcfg f6_history = true /\
-  map o_res (outputs wcfg f5_history) = [OBootOk; OCommitted 1; OCrashed; OBootOk; OErrValidate].
+(* ---- the defects of the tree before the repairs, kept as examples of what the repaired model does ------ *)
+Definition w_cfg : cfg := {| c_chain := 1; c_initial := 1; c_gtime := 0%Z; c_key := 7; c_gaddr := Addr 7 |}.
+
+(* F5 (before 46e0134 a crash after 4 writes of the second block left height 2 / state 1 and wedged the node):
+   now the 4th write is the STATE; the image has state height 2, store height 1; the restart raises the
+   height and the next step commits height 3 *)
+Definition f5_history : list item :=
+  [ IRun (ABoot (Some 1)); IRun (AStep SNil (EOk 2));
+    ICrash (AStep (SBatch [5] 1000%Z 1) (EOk 3)) 4;
+    IRun (ABoot (Some 4)); IRun (AStep (SBatch [6] 2000%Z 2) (EOk 5)) ].
+Example before_the_repair_F5 :
+  map o_res (outputs w_cfg f5_history) = [OBootOk; OCommitted 1; OCrashed; OBootOk; OCommitted 3]
+  /\ g_height (img_of (run w_cfg (firstn 3 f5_history))) = 1
+  /\ option_map s_height (g_state (img_of (run w_cfg (firstn 3 f5_history)))) = Some 2
+  /\ g_height (img_of (run w_cfg (firstn 4 f5_history))) = 2.
+Proof. vm_compute. repeat split. Qed.
+
+(* F5 on the first block (before: the restart re-created the genesis block over the committed one): the state
+   of height 1 is now on disk before the height, the restart finds it, does not call InitChain again, and
+   block 1 is untouched *)
+Definition f5b_h1 : list item := [ IRun (ABoot (Some 1)); ICrash (AStep SNil (EOk 2)) 2 ].
+Definition f5b_h2 : list item := [ IRun (ABoot (Some 9)) ].
+Example before_the_repair_F5_first_block :
+  g_block (img_of (run w_cfg (f5b_h1 ++ f5b_h2))) 1 = g_block (img_of (run w_cfg f5b_h1)) 1
+  /\ g_inits (run w_cfg (f5b_h1 ++ f5b_h2)) = [1]
+  /\ g_height (img_of (run w_cfg (f5b_h1 ++ f5b_h2))) = 1.
+Proof. vm_compute. repeat split. Qed.
+
+(* F6 (before d2502c2 a crash during SaveCache left a torn file and every later start failed): a shutdown cut
+   after any number of files is followed by a successful start; only damage BY HAND makes a start fail, until
+   a complete shutdown rewrites the files *)
+Example before_the_repair_F6 :
+  map o_res (outputs w_cfg [IRun (ABoot (Some 1)); IRun (AStep SNil (EOk 2)); IStop (Some 1); IRun (ABoot None)])
+    = [OBootOk; OCommitted 1; OStopped; OBootOk]
+  /\ map o_res (outputs w_cfg [IRun (ABoot (Some 1)); ITamper 2; IStop (Some 2); IRun (ABoot None)])
+    = [OBootOk; OTampered; OStopped; OBootFailCache]
+  /\ map o_res (outputs w_cfg [IRun (ABoot (Some 1)); ITamper 2; IStop (Some 3); IRun (ABoot None)])
+    = [OBootOk; OTampered; OStopped; OBootOk].
 Proof. vm_compute. repeat split. Qed.
